@@ -373,7 +373,7 @@ func funcInfoOf(name string) funcInfo {
 //
 //@ func (*converter).Return
 //@   requires[C13,C16] inv: len(c.funcs) > 0
-//@   loop 1 invariant[C05] frame: routeOK(c) && c.funcs == old(c.funcs)
+//@   loop @"range values" invariant[C05] frame: routeOK(c) && c.funcs == old(c.funcs)
 //@   ensures[C05,C16] still-in-function: c.funcs == old(c.funcs) && result == nil && routeOK(c)
 
 // File builtins (C17): the content travels in the global register _fa0 (a line feed cannot be an
@@ -409,11 +409,11 @@ func specCommand(name string, n int, words string) string {
 // left to right by " | "; as a statement the pipeline is the one emitted call line, as a value
 // the capture helper is flagged.
 //@ func (*converter).AppCall
-//@   loop 2 invariant[C18] words-so-far: len(argsCopy) == len(call.args) && forall(k, 0, rangeindex + 1, argsCopy[k] == specWord(call.args[k])) && forall(k, rangeindex + 1, len(argsCopy), argsCopy[k] == call.args[k])
-//@   loop 1 invariant[C18] commands-so-far: calls(strings_Join) == rangeindex + 1 && len(callStrings) == rangeindex + 1
-//@   loop 1 invariant[C18] words-of-each-command: forall(k, 0, calls(strings_Join), arg(strings_Join, k, 1) == " " && len(arg(strings_Join, k, 0)) == len(callsCopy[k].args) && forall(i, 0, len(callsCopy[k].args), arg(strings_Join, k, 0)[i] == specWord(callsCopy[k].args[i])))
-//@   loop 1 invariant[C18] command-k-is-name-and-words: forall(k, 0, len(callStrings), callStrings[k] == specCommand(callsCopy[k].name, len(callsCopy[k].args), res(strings_Join, k, 0)))
-//@   loop 1 invariant[C18] frame: sameExcept(c, old(c)) && routeOK(c)
+//@   loop @"range argsCopy" invariant[C18] words-so-far: len(argsCopy) == len(call.args) && forall(k, 0, rangeindex + 1, argsCopy[k] == specWord(call.args[k])) && forall(k, rangeindex + 1, len(argsCopy), argsCopy[k] == call.args[k])
+//@   loop @"range callsCopy" invariant[C18] commands-so-far: calls(strings_Join) == rangeindex + 1 && len(callStrings) == rangeindex + 1
+//@   loop @"range callsCopy" invariant[C18] words-of-each-command: forall(k, 0, calls(strings_Join), arg(strings_Join, k, 1) == " " && len(arg(strings_Join, k, 0)) == len(callsCopy[k].args) && forall(i, 0, len(callsCopy[k].args), arg(strings_Join, k, 0)[i] == specWord(callsCopy[k].args[i])))
+//@   loop @"range callsCopy" invariant[C18] command-k-is-name-and-words: forall(k, 0, len(callStrings), callStrings[k] == specCommand(callsCopy[k].name, len(callsCopy[k].args), res(strings_Join, k, 0)))
+//@   loop @"range callsCopy" invariant[C18] frame: sameExcept(c, old(c)) && routeOK(c)
 //@   ensures[C18] commands-in-order-joined-by-pipes: calls(strings_Join) >= len(calls) + 1 && arg(strings_Join, len(calls), 1) == " | " && len(arg(strings_Join, len(calls), 0)) == len(calls) && forall(k, 0, len(calls), arg(strings_Join, k, 1) == " " && len(arg(strings_Join, k, 0)) == len(calls[k].args) && forall(i, 0, len(calls[k].args), arg(strings_Join, k, 0)[i] == specWord(calls[k].args[i])) && arg(strings_Join, len(calls), 0)[k] == specCommand(calls[k].name, len(calls[k].args), res(strings_Join, k, 0)))
 //@   ensures[C18] statement-form-runs-the-pipeline: !valueUsed ==> appended(specBlock(c), old(specBlockBefore(c)), "call " + res(strings_Join, calls(strings_Join) - 1, 0)) && len(result0) == 3 && result0[0] == "" && result0[1] == "" && result0[2] == "0" && err == nil
 //@   ensures[C16,C18] value-form-flags-the-capture-helper: valueUsed ==> c.appCallHelperRequired
@@ -528,7 +528,7 @@ func specECH() []string {
 
 //@ func (*converter).addHelper
 //@   flag modular: true
-//@   loop 1 invariant[C16] body-so-far: len(c.helperCode) == len(old(c.helperCode)) + 4 + rangeindex && samePrefix(old(c.helperCode), c.helperCode) && c.helperCode[len(old(c.helperCode))] == ":: global " + helperType + " helper begin" && c.helperCode[len(old(c.helperCode)) + 1] == "goto :_eo_" + strings.TrimLeft(label, ":") && c.helperCode[len(old(c.helperCode)) + 2] == ":" + strings.TrimLeft(label, ":") && forall(k, 0, rangeindex + 1, c.helperCode[len(old(c.helperCode)) + 3 + k] == code[k]) && sameExcept(c, old(c), "helperCode")
+//@   loop @"range code" invariant[C16] body-so-far: len(c.helperCode) == len(old(c.helperCode)) + 4 + rangeindex && samePrefix(old(c.helperCode), c.helperCode) && c.helperCode[len(old(c.helperCode))] == ":: global " + helperType + " helper begin" && c.helperCode[len(old(c.helperCode)) + 1] == "goto :_eo_" + strings.TrimLeft(label, ":") && c.helperCode[len(old(c.helperCode)) + 2] == ":" + strings.TrimLeft(label, ":") && forall(k, 0, rangeindex + 1, c.helperCode[len(old(c.helperCode)) + 3 + k] == code[k]) && sameExcept(c, old(c), "helperCode")
 //@   ensures[C16] wrapped-body: len(c.helperCode) == len(old(c.helperCode)) + 6 + len(code) && samePrefix(old(c.helperCode), c.helperCode) && c.helperCode[len(old(c.helperCode))] == ":: global " + helperType + " helper begin" && c.helperCode[len(old(c.helperCode)) + 1] == "goto :_eo_" + strings.TrimLeft(label, ":") && c.helperCode[len(old(c.helperCode)) + 2] == ":" + strings.TrimLeft(label, ":") && forall(k, 0, len(code), c.helperCode[len(old(c.helperCode)) + 3 + k] == code[k]) && c.helperCode[len(c.helperCode) - 3] == "exit /B" && c.helperCode[len(c.helperCode) - 2] == ":_eo_" + strings.TrimLeft(label, ":") && c.helperCode[len(c.helperCode) - 1] == ":: global " + helperType + " helper end"
 //@   ensures[C16] frame: sameExcept(c, old(c), "helperCode")
 //
